@@ -91,7 +91,7 @@ def compare(case, obs):
 
 def main(chk, args):
     rnd = random.Random(chk.seed)
-    cases = pipeline.get_cases(chk, chk.tier, chk.seed, sim_quick=120, extra_scopes=('ads',))
+    cases = pipeline.get_cases(chk, chk.tier, chk.seed, sim_quick=120, extra_scopes=('ads', 'names'))
     # C15 is about metadata: make sure the option is on for the shape cases (the option alphabet still covers off)
     if chk.tier == 'thorough' and len(cases) > 2500:
         special = [c for c in cases if c['req']['extra'] != 'none' and c['expect']['metadataJson']]
